@@ -23,15 +23,18 @@ static void ham_run(Ctx& c) {
     if (pmode == PM_DEFAULT && !m.balanced_spins()) pmode = PM_IGNORE;   // default analysis on such lattices is C07's subject
     Pipeline p; p.build_lattice(m);
     CMat Href = p.ref_H();
+    // a constant term in the symbolic Hamiltonian (IndexHamiltonian is an Operator: H += c) shifts the whole spectrum, e.g. to strictly positive values
+    double hconst = 0;
+    if (r.coin(0.2)) { static const double cs[] = {5.0, -3.0, 0.75, 40.0, 1e3}; hconst = cs[r.range(0, 4)]; *p.Storage += Pomerol::MelemType(hconst); Href += hconst * CMat::Identity(Href.rows(), Href.cols()); }
     RefED ed; ed.solve(Href);
     if (ed.herm_defect() > 1e-12 * (1 + ed.hnorm)) { c.skipped = true; c.extra.set("skip", "generated model not Hermitian"); return; }
     std::vector<Pomerol::Operator> ioms; J iomdesc = J::arr();
     if (pmode == PM_CUSTOM) ioms = benign_ioms(r, p, Href, iomdesc);
     p.build_states(pmode, ioms);
     p.build_hamiltonian(false);
-    c.model = m.describe(); c.canon = m.canon() + "|" + pm_name(pmode) + iomdesc.str();
+    c.model = m.describe(); c.model.set("constant_term_in_H", hconst); c.canon = m.canon() + "|" + pm_name(pmode) + iomdesc.str() + "|c=" + fmt(hconst);
     const long nb = p.nblocks();
-    c.features.set("partition", pm_name(pmode)).set("ioms", iomdesc).set("blocks", nb).set("N", p.N).set("accepted_ioms", p.n_accepted_ioms);
+    c.features.set("constant_term", hconst != 0).set("partition", pm_name(pmode)).set("ioms", iomdesc).set("blocks", nb).set("N", p.N).set("accepted_ioms", p.n_accepted_ioms);
     const double scale = 1 + ed.hnorm;
     std::string pk = std::string("part=") + pm_name(pmode);
 
